@@ -7,3 +7,4 @@ import PyIkev2.Props.C01
 #print axioms PyIkev2.Props.C01.c01_no_unknown
 #print axioms PyIkev2.Props.C01.c01_delete_matches_install
 #print axioms PyIkev2.Props.C01.c01_ike_keys_agree
+#print axioms PyIkev2.Props.C01.c01_concrete_child_sas_of_the_two_ends_are_mirror_images
